@@ -414,7 +414,7 @@ func c44Gen(r *vRand, stale bool) c44Case {
 			op.PF = true
 		}
 		switch x := r.Intn(100); {
-		case x < 18: // upload segment
+		case x < 16: // upload segment
 			op.Kind = "upseg"
 			op.Body = r.Bytes(r.Range(0, 12))
 			if old, ok := rp.seg[op.Key]; ok && !stale {
@@ -423,7 +423,7 @@ func c44Gen(r *vRand, stale bool) c44Case {
 			if !op.PF {
 				p.seg[op.Key] = op.Body
 			}
-		case x < 26:
+		case x < 22:
 			op.Kind = "upidx"
 			op.Body = r.Bytes(r.Range(0, 6))
 			if old, ok := rp.idx[op.Key]; ok && !stale {
@@ -432,14 +432,14 @@ func c44Gen(r *vRand, stale bool) c44Case {
 			if !op.PF {
 				p.idx[op.Key] = op.Body
 			}
-		case x < 31:
+		case x < 25:
 			op.Kind = "delseg"
 			if _, ok := rp.seg[op.Key]; ok && !stale {
 				op.Kind = "getseg"
 			} else if !op.PF {
 				delete(p.seg, op.Key)
 			}
-		case x < 34:
+		case x < 27:
 			op.Kind = "delidx"
 			if _, ok := rp.idx[op.Key]; ok && !stale {
 				op.Kind = "getidx"
@@ -448,7 +448,7 @@ func c44Gen(r *vRand, stale bool) c44Case {
 			}
 		case x < 48: // replication of a segment
 			op.Kind, op.PF = "rseg", false
-			if b, ok := p.seg[op.Key]; ok && r.Chance(80) {
+			if b, ok := p.seg[op.Key]; ok && r.Chance(90) {
 				op.Present, op.Body = true, append([]byte(nil), b...)
 				if stale && r.Chance(50) {
 					op.Body = r.Bytes(r.Range(0, 12))
